@@ -116,6 +116,43 @@ def coq_make(targets, timeout=1800, jobs=16):
     return sh(["make", "-j%d" % jobs] + targets, cwd=COQ, timeout=timeout)
 
 
+def coq_build_cone(dirs, timeout=1800, clean_dirs=()):
+    """Build Common + the given property directories in dependency order (coqdep -sort), under a file lock so that
+    concurrent checks do not write the same .vo at once.  Returns (rc, output)."""
+    import fcntl
+    files = []
+    for d in ["Common"] + [x for x in dirs if x != "Common"]:
+        files += sorted(glob.glob(os.path.join(COQ, d, "*.v")))
+    rel = [os.path.relpath(f, COQ) for f in files]
+    lock = open(os.path.join(COQ, ".lock"), "w")
+    fcntl.flock(lock, fcntl.LOCK_EX)
+    try:
+        for d in clean_dirs:
+            for f in glob.glob(os.path.join(COQ, d, "*.vo")):
+                os.remove(f)
+        rc, out = sh(["coqdep", "-sort", "-Q", ".", "Verif"] + rel, cwd=COQ, timeout=120, quiet=True)
+        if rc != 0:
+            return rc, out
+        order = [x for x in out.split() if x.endswith(".v")]
+        newest = 0.0
+        log_out = []
+        t0 = time.time()
+        for v in order:
+            vp = os.path.join(COQ, v)
+            vo = vp + "o"
+            need = (not os.path.exists(vo)) or os.path.getmtime(vo) < os.path.getmtime(vp) or os.path.getmtime(vo) < newest
+            if need:
+                rc, o = sh(["coqc", "-Q", ".", "Verif", v], cwd=COQ, timeout=max(60, timeout - (time.time() - t0)))
+                log_out.append(o)
+                if rc != 0:
+                    return rc, "\n".join(log_out)[-4000:]
+            newest = max(newest, os.path.getmtime(vo))
+        return 0, "\n".join(log_out)
+    finally:
+        fcntl.flock(lock, fcntl.LOCK_UN)
+        lock.close()
+
+
 def coqc(path, timeout=900, cwd=None, extra=()):
     return sh(["coqc", "-Q", COQ, "Verif"] + list(extra) + [path], timeout=timeout, cwd=cwd or os.path.dirname(path), quiet=True)
 
